@@ -64,6 +64,7 @@ type Sim struct {
 	states map[[32]byte]struct{}
 
 	violations []Violation
+	knownHits  []Violation
 
 	// lock instrumentation. LockSched: the scenario schedules lock hand-over
 	// itself through LockActions (stores); otherwise Quiesce does it.
@@ -167,8 +168,28 @@ func (s *Sim) Now() time.Duration { return time.Since(s.Start) }
 
 // ---- violations ----
 
+// KnownRule identifies a recorded genuine finding (known_findings.json):
+// violations of Rule whose message contains Match do not fail the run; they
+// are collected separately so that exploration continues past them.
+type KnownRule struct {
+	Rule  string
+	Match string
+}
+
+// KnownRules is set by the worker from the committed known-findings file.
+var KnownRules []KnownRule
+
 func (s *Sim) Violate(rule, format string, a ...any) {
 	msg := fmt.Sprintf(format, a...)
+	for _, k := range KnownRules {
+		if k.Rule == rule && (k.Match == "" || strings.Contains(msg, k.Match)) {
+			s.mu.Lock()
+			s.knownHits = append(s.knownHits, Violation{Prop: s.Prop, Rule: rule, Msg: msg})
+			s.mu.Unlock()
+			s.Tracef("KNOWN-FINDING %s: %s", rule, msg)
+			return
+		}
+	}
 	s.mu.Lock()
 	s.violations = append(s.violations, Violation{Prop: s.Prop, Rule: rule, Msg: msg})
 	s.mu.Unlock()
@@ -181,10 +202,39 @@ func (s *Sim) Failed() bool {
 	return len(s.violations) > 0
 }
 
+func (s *Sim) KnownHits() []Violation {
+	s.mu.Lock()
+	defer s.mu.Unlock()
+	return append([]Violation(nil), s.knownHits...)
+}
+
 func (s *Sim) Violations() []Violation {
 	s.mu.Lock()
 	defer s.mu.Unlock()
 	return append([]Violation(nil), s.violations...)
+}
+
+// ---- context tags ----
+
+type tagKey struct{}
+
+// WithTag attaches a stable tag (e.g. the id of the client operation) to a
+// context. Seams append it to their park labels, so that two calls that reach
+// the same seam with the same arguments in the same step (whose arrival order
+// is the Go scheduler's) still get distinguishable, replayable ids.
+func WithTag(ctx context.Context, tag string) context.Context {
+	return context.WithValue(ctx, tagKey{}, tag)
+}
+
+// TagOf returns "@tag" or "".
+func TagOf(ctx context.Context) string {
+	if ctx == nil {
+		return ""
+	}
+	if t, ok := ctx.Value(tagKey{}).(string); ok {
+		return "@" + t
+	}
+	return ""
 }
 
 // ---- parking ----
